@@ -228,16 +228,70 @@ def g2_map(ctx, ids):
     chk.add_executor(ex)
 
 
+def native_differential(ctx):
+    """the real osswu_map (both builds of the native replay binary) against an independent affine transcription of RFC 9380 6.6.2 on
+    inputs chosen per branch class: 0, +-1, zero real part (odd / even imaginary part), zero imaginary part, the G1 exceptional root,
+    seeded random ones.  A complement to the solver obligations (it also validates the translator end to end)."""
+    import random
+    from mirsym import load
+    chk = ctx.chk
+    q = ref.Q
+    rnd = random.Random(ctx.seed * 31 + 5)
+    u1 = [0, 1, q - 1, 2, 3, q - 2, 5, 11, rnd.randrange(q), rnd.randrange(q), rnd.randrange(q)]
+    exc = ref.fq_sqrt((-pow(11, -1, q)) % q)       # 11^2 u^4 + 11 u^2 = 0  <=>  u^2 = -1/11
+    if exc is not None:
+        u1 += [exc, q - exc]
+    u2 = [(0, 0), (1, 0), (q - 1, 0), (0, 1), (0, 2), (0, 3), (0, q - 2), (0, q - 1), (5, 0), (4, 0), (2, 7), (3, 7),
+          (rnd.randrange(q), rnd.randrange(q)), (rnd.randrange(q), rnd.randrange(q)), (0, rnd.randrange(q) | 1), (0, rnd.randrange(q) & ~1), (rnd.randrange(q), 0)]
+    cmds = ['g1_sswu %x' % u for u in u1] + ['g2_sswu %x %x' % u for u in u2]
+    bad = {}
+    for profile in ('release', 'dev'):
+        n = load.Native(profile)
+        try:
+            outs = n.run(cmds)
+        finally:
+            n.close()
+        for c, o in zip(cmds, outs):
+            parts = o.split()
+            try:
+                if c.startswith('g1'):
+                    X, Y, Z = [int(p_, 16) for p_ in parts]
+                    got = ref.E1P.from_jac(X, Y, Z)
+                    want = ref.sswu_fq(int(c.split()[1], 16))
+                    oncurve = ref.E1P.on_curve(got)
+                else:
+                    v = [int(p_, 16) for p_ in parts]
+                    got = ref.E2P.from_jac((v[0], v[1]), (v[2], v[3]), (v[4], v[5]))
+                    uu = c.split()[1:]
+                    want = ref.sswu_fq2((int(uu[0], 16), int(uu[1], 16)))
+                    oncurve = ref.E2P.on_curve(got)
+            except Exception as e:
+                got, want, oncurve = 'unparseable: %s' % o[:60], None, False
+            if got != want or not oncurve:
+                bad.setdefault(c, {})[profile] = {'got': str(got)[:200], 'want': str(want)[:200], 'on_curve': oncurve}
+    chk.extra['native_differential'] = {'inputs': len(cmds), 'profiles': ['release', 'dev'], 'failing': len(bad)}
+    chk.ground('native osswu_map = RFC 9380 map_to_curve_simple_swu (independent affine transcription) on %d branch-class and seeded inputs, both builds' % len(cmds),
+               not bad, str(list(bad.items())[:1])[:300])
+    if bad:
+        chk.ground_handled = getattr(chk, 'ground_handled', {})
+        chk.ground_handled[chk.grounds[-1][0]] = True
+        c0 = sorted(bad)[0]
+        ctx.violation('sswu-native:' + c0.split()[0], 'osswu_map disagrees with RFC 9380 map_to_curve_simple_swu on %d inputs, e.g. %s -> %s' % (len(bad), c0, bad[c0]),
+                      {'failing_inputs': bad, 'replay_cmd': 'build /verif/replay against /repo and feed: ' + c0})
+
+
 def run(ctx):
     chk = ctx.chk
     ctx.explanation = ('ring-domain symbolic execution of osswu_help / osswu_map MIR with constants and addition chains abstracted; per-path '
                        'polynomial identities (output shape, on-curve with the cofactor of the tested hypothesis) by z3; exact exponents of '
                        'the chains; ground facts on the constants')
     ids = C.Identities(ctx, 'sswu')
-    helper(ctx, ids)
-    chains(ctx)
-    g1_map(ctx, ids)
-    g2_map(ctx, ids)
+    for part in (helper, chains, g1_map, g2_map):
+        try:
+            part(ctx, ids) if part is not chains else part(ctx)
+        except Inconclusive as e:
+            ctx.inconclusive('%s: encoder: %s' % (part.__name__, e))
+    native_differential(ctx)
     chk.assumptions += ['sgn0(-y) != sgn0(y) for y != 0 (C18) so that negate_if yields sgn0(y) = sgn0(u)',
                         'number theory (trusted, cited WB19 section 4 / RFC 9380 F.2): when g(x0) is a non-square the second candidate is a root (G1: c^2 V = -U by '
                         'Euler; G2: one of the four etas matches) so the G2 terminal panic is unreachable; not a bounded query over Fq',
